@@ -41,6 +41,18 @@ def gen_case(rng: Rng, i: int, tier: str):
 
         c = c06.gen_case(rng.sub("ref"), 10 ** 6, tier)
         if "members" in c:
+            rs = rng.sub("respell")
+            if c["members"] and rs.chance(0.3):
+                # a stored name in a legal but not path-normal spelling, as another tool may write it: it is listed as stored
+                # and getinfo must find it under exactly that spelling
+                m = rs.pick(c["members"])
+                nm = m["name"]
+                forms = ["./" + nm]
+                if "/" in nm:
+                    forms += [nm.replace("/", "//", 1), nm.replace("/", "/./", 1)]
+                new = rs.pick(forms)
+                if new not in [x["name"] for x in c["members"]]:
+                    m["name"] = new
             return {"ref": {"members": c["members"], "layout": c["layout"]}, "open": r.pick(["path", "stream", "anon"]), "supply_password": True}
     arc = rsess.gen_archive(rng.sub("arc"), tier)
     return {"archive": arc, "open": r.pick(["path", "stream", "anon"]), "supply_password": r.chance(0.6)}
